@@ -88,7 +88,8 @@ Inductive ty :=
 | TColl (ck: ckind) (t: ty)               (* Tuple[T, ...] / Set[T] / FrozenSet[T]: a list on the wire *)
 | TEnum (e: string)                       (* an Enum class: member value on the wire *)
 | TNamed (c: string)                      (* a NamedTuple class: the list of its items on the wire *)
-| TTyped (c: string).                     (* a (total) TypedDict: a mapping with exactly the declared keys *)
+| TTyped (c: string)                      (* a (total) TypedDict: a mapping with exactly the declared keys *)
+| TFix (c: string).                       (* Tuple[T1, .., Tn]: item types listed in the class table under a synthetic name *)
     (* Annotated[Union[C1..Cn], Discriminator(field=fld, include_supertypes=True)]: tag literal -> class *)
 
 (* field declaration: name, type, "default is None"; inherited fields are listed (flattened) *)
@@ -368,6 +369,11 @@ Section Leaves.
                                    | Some ds => bs <- pack_fields (fun x ft => pack ls x c ft) false kvs ds ;; Ok (BDict bs)
                                    | None => Err EBad end
                     | _ => Err EBad end
+      | TFix c => match v with
+                  | VColl CTuple items => match lookup c E with
+                                          | Some ds => bs <- pack_items (fun x ft => pack ls x self ft) items ds ;; Ok (BList bs)
+                                          | None => Err EBad end
+                  | _ => Err EBad end
       end.
 
   Definition bind_clos (U: bv -> string -> ty -> res pv) (c: string) (kv: string * bv) : string * (ty -> res pv) :=
@@ -428,6 +434,11 @@ Section Leaves.
                                    | Some ds => vs <- unpack_fields (map (bind_clos (unpack ls) c) kvs) ds ;; Ok (VDict vs)
                                    | None => Err EBad end
                     | _ => Err EBad end
+      | TFix c => match b with
+                  | BList l => match lookup c E with
+                               | Some ds => vs <- unpack_items (fun x ft => unpack ls x self ft) l ds ;; Ok (VColl CTuple vs)
+                               | None => Err EBad end
+                  | _ => Err EBad end
       end.
 
   (* -- what the format library does to native leaves (part of the assumed law) --------- *)
